@@ -49,16 +49,138 @@ PURE_CALLS = {"isinstance", "issubclass", "callable", "len", "type", "bool", "ha
 _INV = None
 
 
+def _load_inventory():
+    p = os.path.join(os.path.dirname(os.path.abspath(__file__)), "inventory.json")
+    try:
+        d = json.load(open(p))
+    except Exception:
+        return None
+    if isinstance(d, list):
+        d = {"functions": {fq: {} for fq in d}, "attrs": {}}
+    return d
+
+
+_INV_FULL = None
+
+
 def inventory():
-    global _INV
+    """names (module:qualname) of the functions of the reviewed tree"""
+    global _INV, _INV_FULL
     if _INV is None:
-        p = os.path.join(os.path.dirname(os.path.abspath(__file__)), "inventory.json")
-        try:
-            _INV = set(json.load(open(p)))
-        except Exception:
-            _INV = None
+        _INV_FULL = _load_inventory()
+        if _INV_FULL is None:
             return None
+        _INV = set(_INV_FULL["functions"])
     return _INV
+
+
+def fingerprint(fn):
+    """what a function looks like apart from its name: number of parameters and the names it calls / attributes it touches"""
+    bag = set()
+    for n in ast.walk(fn):
+        if isinstance(n, ast.Attribute):
+            bag.add("." + n.attr)
+        elif isinstance(n, ast.Call) and isinstance(n.func, ast.Name):
+            bag.add(n.func.id + "()")
+        elif isinstance(n, ast.Constant) and isinstance(n.value, str) and 0 < len(n.value) <= 24:
+            bag.add(repr(n.value))
+    return {"nparams": len(fn.args.posonlyargs + fn.args.args), "bag": sorted(bag)}
+
+
+def scan(trees):
+    """{module:qual: FunctionDef} for top-level functions and methods; {module:Class: set(self attributes stored)}"""
+    funcs, attrs = {}, {}
+    for mod, tree in trees.items():
+        def visit(body, prefix, cls):
+            for n in body:
+                if isinstance(n, ast.ClassDef):
+                    visit(n.body, prefix + n.name + ".", n.name if cls is None else cls)
+                    st = attrs.setdefault(f"{mod}:{prefix}{n.name}", set())
+                    for x in ast.walk(n):
+                        if isinstance(x, ast.Attribute) and isinstance(x.ctx, ast.Store) and isinstance(x.value, ast.Name) and x.value.id == "self":
+                            st.add(x.attr)
+                elif isinstance(n, FUNC):
+                    funcs[f"{mod}:{prefix}{n.name}"] = n
+        visit(tree.body, "", None)
+    return funcs, attrs
+
+
+def undo_renames(trees):
+    """N0: a function (method) or a self attribute of the reviewed tree that has vanished while a new one appeared in the same scope
+    is a rename; the new name is replaced by the reviewed one everywhere, so that rules keep finding what they were confirmed on.
+    Pairing: 1-1 per scope directly, otherwise by the fingerprint stored in the inventory.  -> {new name: old name}"""
+    inventory()
+    if _INV_FULL is None:
+        return {}
+    inv_f, inv_a = _INV_FULL["functions"], _INV_FULL.get("attrs", {})
+    funcs, attrs = scan(trees)
+    ren_f, ren_a = {}, {}
+    scopes = {}
+    for fq in inv_f:
+        mod, qual = fq.split(":")
+        if "." in qual and qual.rsplit(".", 1)[0] + "" and fq.count(".") > 1 and f"{mod}:{qual.rsplit('.', 1)[0]}" in inv_f:
+            continue          # nested function (closure): its enclosing function is itself inventoried
+        scopes.setdefault((mod, qual.rsplit(".", 1)[0] if "." in qual else ""), [set(), set()])[0].add(fq)
+    for fq in funcs:
+        mod, qual = fq.split(":")
+        scopes.setdefault((mod, qual.rsplit(".", 1)[0] if "." in qual else ""), [set(), set()])[1].add(fq)
+    all_old_names = {fq.split(":")[1].rsplit(".", 1)[-1] for fq in inv_f}
+    for (mod, scope), (old, now) in scopes.items():
+        if mod not in trees:
+            continue
+        vanished, new = sorted(old - now), sorted(now - old)
+        if not vanished or not new:
+            continue
+        pairs = []
+        if len(vanished) == 1 and len(new) == 1:
+            pairs = [(new[0], vanished[0])]
+        else:
+            cand = []
+            for nf in new:
+                fp = fingerprint(funcs[nf])
+                for vf in vanished:
+                    of = inv_f.get(vf) or {}
+                    if not of or of.get("nparams") != fp["nparams"]:
+                        continue
+                    a, b = set(fp["bag"]), set(of.get("bag", []))
+                    j = len(a & b) / max(1, len(a | b))
+                    cand.append((j, nf, vf))
+            used_n, used_v = set(), set()
+            for j, nf, vf in sorted(cand, reverse=True):
+                if j >= 0.6 and nf not in used_n and vf not in used_v:
+                    pairs.append((nf, vf))
+                    used_n.add(nf)
+                    used_v.add(vf)
+        for nf, vf in pairs:
+            nn, on = nf.split(":")[1].rsplit(".", 1)[-1], vf.split(":")[1].rsplit(".", 1)[-1]
+            if nn not in all_old_names and nn not in ren_f:
+                ren_f[nn] = on
+    all_old_attrs = {a for v in inv_a.values() for a in v}
+    for cls, old in inv_a.items():
+        now = attrs.get(cls)
+        if now is None:
+            continue
+        vanished, new = sorted(set(old) - now), sorted(now - set(old))
+        if len(vanished) == 1 and len(new) == 1 and new[0] not in all_old_attrs and new[0] not in all_old_names:
+            ren_a[new[0]] = vanished[0]
+    if not ren_f and not ren_a:
+        return {}
+    for tree in trees.values():
+        for n in ast.walk(tree):
+            if isinstance(n, FUNC) and n.name in ren_f:
+                n.name = ren_f[n.name]
+            elif isinstance(n, ast.Attribute):
+                if n.attr in ren_f:
+                    n.attr = ren_f[n.attr]
+                elif n.attr in ren_a:
+                    n.attr = ren_a[n.attr]
+            elif isinstance(n, ast.Name) and n.id in ren_f:
+                n.id = ren_f[n.id]
+            elif isinstance(n, ast.alias) and n.name in ren_f:
+                n.name = ren_f[n.name]
+            elif isinstance(n, ast.keyword) and n.arg in ren_f:
+                pass
+    return {"functions": ren_f, "attributes": ren_a}
 
 
 # ------------------------------------------------------------------ helpers
@@ -820,7 +942,16 @@ _PARAMS_BY_NAME = {}
 
 
 def prepare(trees):
-    """called once per repository load, before the modules are normalised"""
+    """called once per repository load, before the modules are normalised.  trees: {module name: ast.Module} (or a list of trees)"""
+    renames = {}
+    if isinstance(trees, dict):
+        renames = undo_renames(trees)
+        trees = list(trees.values())
+    _prepare_summaries(trees)
+    return renames
+
+
+def _prepare_summaries(trees):
     _PARAMS_BY_NAME.clear()
     _CLASS_CTORS.clear()
     for tree in trees:
